@@ -138,6 +138,9 @@ def jobs(tier):
     import os
     seed = int(os.environ.get("VERIF_SEED", "0") or 0)
     js = [Job("stateless-reuse", job_stateless, dict(seed=seed), "stateless", 600)]
+    for K in (1, 2, 3) + ((4,) if tier == "thorough" else ()):
+        js.append(Job(f"item-step-vs-reference/enc1/K{K}", c01.job_item_step, dict(K=K, with_reference=True, timeout_s=1500 if tier == "quick" else 3300),
+                      "follows_documented_rule", 1700 if tier == "quick" else 3500, weight=K))
     nmax = 3 if tier == "quick" else 4
     for enc in (1, 2):
         for n in range(1, nmax + 1):
@@ -158,6 +161,7 @@ def jobs(tier):
 def meta(tier):
     return dict(
         bounds=dict(items=f"<= {3 if tier == 'quick' else 4} items, every multiplicity vector and signed permutation (quick: up to relabelling)",
+                    item_step="encoding 1: one item into an arbitrary feasible bin with K <= 3 (thorough 4) boxes lands exactly where the reference rule puts it (or opens a new bin)",
                     sizes="bin and item sizes symbolic in 1..10^12", prior_state="destination packing and the encoder's scratch arrays start as arbitrary garbage; "
                           "the reference does not read them, so agreement implies independence from earlier decodings"),
         outside=["more items", "the reference model is my reading of the module documentation (harness/ibl_reference.py)"],
